@@ -233,4 +233,40 @@ def getNodes (a : Actor) (lvl : Level) (fresh : Bool) (choice : List Nat) : Res 
     | .ok ns => (r, { a with dcs := dcs', cache := (lvl, ns) :: a.cache.filter (fun p => p.1 ≠ lvl) })
     | _ => (r, { a with dcs := dcs' })
 
+/-! ### The wiring membership → selector (`watch_membership_changes`, datacake-node/src/lib.rs) -/
+
+/-- A live member as the watcher sees it: `(node id, public address, data centre)`. -/
+abbrev MemberDc := Nat × Nat × Nat
+
+/-- Members in `BTreeMap<NodeId, _>` iteration order (node ids are the keys: distinct). -/
+def insertById (m : MemberDc) : List MemberDc → List MemberDc
+  | [] => [m]
+  | x :: xs => if m.1 < x.1 then m :: x :: xs else if m.1 = x.1 then m :: xs else x :: insertById m xs
+
+def sortById (ms : List MemberDc) : List MemberDc := ms.foldl (fun acc m => insertById m acc) []
+
+/-- One entry per ADDRESS (fix D21): a peer that re-joined under a new node id can still be listed
+under its old one; the first member (in id order) at an address stands for it. -/
+def keepFirstAddr : List MemberDc → List Nat → List MemberDc
+  | [], _ => []
+  | m :: ms, seen =>
+    if seen.contains m.2.1 then keepFirstAddr ms seen else m :: keepFirstAddr ms (m.2.1 :: seen)
+
+def insertNat (x : Nat) : List Nat → List Nat
+  | [] => [x]
+  | y :: ys => if x < y then x :: y :: ys else if x = y then y :: ys else y :: insertNat x ys
+
+/-- The data-centre map handed to the selector: `BTreeMap<dc, Vec<addr>>`, addresses pushed in
+node-id order (the local node included). -/
+def dcLayout (ms : List MemberDc) : List (Nat × List Nat) :=
+  let kept := keepFirstAddr (sortById ms) []
+  let dcs := (kept.map (·.2.2)).foldr insertNat []
+  dcs.map (fun d => (d, (kept.filter (fun m => m.2.2 == d)).map (·.2.1)))
+
+/-- The pinned wiring (D21): every member's address is pushed, whatever was pushed before. -/
+def dcLayoutLegacy (ms : List MemberDc) : List (Nat × List Nat) :=
+  let kept := sortById ms
+  let dcs := (kept.map (·.2.2)).foldr insertNat []
+  dcs.map (fun d => (d, (kept.filter (fun m => m.2.2 == d)).map (·.2.1)))
+
 end Datacake.Selector
